@@ -33,7 +33,8 @@ fn tables_json(ts: &[&(D, Tt)]) -> Value {
 fn check_const(st: &mut Stats, env: &BDDEnv<usize>, uni: &[usize], ops: &[&(D, Tt)], n: i64, fam: &str) {
     let nv = uni.len() as u32;
     let idx = idx_fn(uni);
-    let ds: Vec<D> = ops.iter().map(|x| Rc::clone(&x.0)).collect();
+    // (every third operand is a private copy the engine becomes the sole owner of)
+    let ds: Vec<D> = ops.iter().enumerate().map(|(i, x)| hand_over(&x.0, st.evals + i as u64)).collect();
     let ts: Vec<Tt> = ops.iter().map(|x| x.1.clone()).collect();
     for (kind, cmp) in [("aln", Cmp::AtLeast), ("amn", Cmp::AtMost), ("exn", Cmp::Exactly)] {
         st.evals += 1;
